@@ -10,6 +10,7 @@ CHECKS = {
     'C10': props_pool.check,
     'C05': props_router.check_c05,
     'C13': props_router.check_c13,
+    'C06': props_router.check_c06,
 }
 
 
